@@ -506,8 +506,10 @@ impl Python {
                     format!(
                         "{indent}\"\"\"\n{indented_comments}\n{indent}\"\"\"",
                         indent = indent,
+                        // A `"""` inside the text would end the docstring early.
                         indented_comments = comments
                             .iter()
+                            .map(|v| v.replace("\"\"\"", "\\\"\\\"\\\""))
                             .map(|v| format!("{}{}", indent, v))
                             .collect::<Vec<String>>()
                             .join("\n"),
